@@ -5,6 +5,7 @@ import (
 	"fmt"
 	"go/ast"
 	"go/build"
+	"go/format"
 	"go/importer"
 	"go/parser"
 	"go/token"
@@ -251,6 +252,33 @@ func runC08(c *fw.Ctx) {
 		c08Run(c, "zoo:"+k, "goast+guess.WithMap", b, func() (*dst.File, error) { return dec(b) }, guess.WithMap(names), dec)
 	}
 
+	// (a4) generated import sections: 1-3 blocks of 1-3 specs, parenthesised or not, aliases,
+	// blank imports, comments; every named import is referenced, so nothing has to change
+	ngen := c.Pick(1500, 60000)
+	for g := 0; g < ngen; g++ {
+		if !c.Mine(g) {
+			continue
+		}
+		gr := c.Rand(fmt.Sprintf("gen-imports/%d", g))
+		src, names := c08GenImports(gr)
+		b := []byte(src)
+		if !corpus.Canonical(b) {
+			c.Count("generated_import_sections_not_canonical", 1)
+			continue
+		}
+		dec := func(s []byte) (*dst.File, error) {
+			d := decorator.NewDecoratorWithImports(token.NewFileSet(), "example.com/self", goast.WithResolver(simple.New(names)))
+			return d.Parse(s)
+		}
+		var rres resolver.RestorerResolver = simple.New(names)
+		pair := "goast+simple/generated-imports"
+		if g%2 == 1 {
+			rres = guess.WithMap(names)
+			pair = "goast+guess.WithMap/generated-imports"
+		}
+		c08Run(c, fmt.Sprintf("gen-imports:%d", g), pair, b, func() (*dst.File, error) { return dec(b) }, rres, dec)
+	}
+
 	// (b) gotypes over type-checked std packages
 	dirs := c08Dirs(c)
 	for i, dir := range dirs {
@@ -408,4 +436,83 @@ func importZoo() map[string]string {
 		"single-lines": "package p\n\nimport \"fmt\"\nimport \"os\"\n\nvar _ = fmt.Sprint(os.Args)\n",
 		"blank-and-used": "package p\n\nimport (\n\t\"fmt\"\n\t_ \"image/png\"\n\t\"strings\"\n)\n\nfunc f() string {\n\treturn strings.ToUpper(fmt.\n\t\tSprint(1))\n}\n",
 	}
+}
+
+// c08GenImports builds a canonical file with a random import section in which every named import
+// is used once.
+func c08GenImports(r interface{ Intn(int) int }) (string, map[string]string) {
+	pool := []struct{ path, name string }{
+		{"bytes", "bytes"}, {"fmt", "fmt"}, {"os", "os"}, {"strings", "strings"}, {"math/rand", "rand"}, {"net/http", "http"},
+		{"x.com/a/log", "log"}, {"x.com/b/yaml.v2", "yaml"}, {"image/png", "png"}, {"embed", "embed"},
+	}
+	perm := make([]int, len(pool))
+	for i := range perm {
+		perm[i] = i
+	}
+	for i := len(perm) - 1; i > 0; i-- {
+		j := r.Intn(i + 1)
+		perm[i], perm[j] = perm[j], perm[i]
+	}
+	names := map[string]string{}
+	var sb strings.Builder
+	sb.WriteString("package p\n\n")
+	var uses []string
+	k := 0
+	nblocks := 1 + r.Intn(3)
+	for b := 0; b < nblocks && k < len(perm); b++ {
+		nspec := 1 + r.Intn(3)
+		var lines []string
+		var paths []string
+		for s := 0; s < nspec && k < len(perm); s++ {
+			p := pool[perm[k]]
+			k++
+			names[p.path] = p.name
+			paths = append(paths, p.path)
+		}
+		sort.Strings(paths) // gofmt sorts the specs of a block
+		for _, path := range paths {
+			name := names[path]
+			line := ""
+			switch r.Intn(6) {
+			case 0:
+				line = "_ \"" + path + "\""
+			case 1:
+				line = "al" + name + " \"" + path + "\""
+				uses = append(uses, "al"+name+".X")
+			case 2:
+				line = name + " \"" + path + "\"" // aliased with its own name
+				uses = append(uses, name+".X")
+			default:
+				line = "\"" + path + "\""
+				uses = append(uses, name+".X")
+			}
+			if r.Intn(5) == 0 {
+				line += " // c"
+			}
+			lines = append(lines, line)
+		}
+		paren := len(lines) > 1 || r.Intn(2) == 0
+		if r.Intn(6) == 0 {
+			sb.WriteString("// block comment\n")
+		}
+		if paren {
+			sb.WriteString("import (\n")
+			for _, l := range lines {
+				sb.WriteString("\t" + l + "\n")
+			}
+			sb.WriteString(")\n\n")
+		} else {
+			sb.WriteString("import " + lines[0] + "\n\n")
+		}
+	}
+	sb.WriteString("func f() {\n")
+	for _, u := range uses {
+		sb.WriteString("\t_ = " + u + "\n")
+	}
+	sb.WriteString("}\n")
+	out := sb.String()
+	if g, err := format.Source([]byte(out)); err == nil {
+		out = string(g)
+	}
+	return out, names
 }
